@@ -22,6 +22,7 @@
 #include <string.h>          // for memset, strdup
 #include <zconf.h>           // for MAX_WBITS
 #include <zlib.h>            // for z_stream, Z_NULL, Z_STREAM_END, gz_header
+#include <algorithm>         // for min
 #include <functional>        // for function
 #include <limits>            // for numeric_limits
 #include <memory>            // for make_unique, unique_ptr
@@ -305,11 +306,22 @@ namespace
     if (0 != fseek(f_, pos, SEEK_SET))
       return fail();
     std::vector<DFS::byte> buf;
-    buf.resize(len);
-    const size_t bytes_read = fread(buf.data(), 1, buf.size(), f_);
-    if (bytes_read == 0)
+    // Grow the buffer as the data arrives instead of allocating len
+    // bytes up front: len may come from a field of a corrupt image
+    // file and be far larger than the file itself.
+    const unsigned long chunk_size = 65536;
+    while (buf.size() < len)
+      {
+	const unsigned long old_size = buf.size();
+	const unsigned long want = std::min(chunk_size, len - old_size);
+	buf.resize(old_size + want);
+	const size_t got = fread(buf.data() + old_size, 1, want, f_);
+	buf.resize(old_size + got);
+	if (got < want)
+	  break;
+      }
+    if (buf.empty())
       return fail();
-    buf.resize(bytes_read);
     return buf;
   }
 
